@@ -7,4 +7,4 @@ Require RV.Gen.RightsVerifyGen.
 Open Scope N_scope.
 
 Lemma Gen_verify_user_eq : forall t, RightsVerifyGen.verify_user t = verify_user t.
-Proof. reflexivity. Qed.
+Proof. intros [t|]; reflexivity. Qed.
